@@ -61,8 +61,28 @@ UniqueOutputs(dd) ==
 OutputNotOwnParam(dd) == \A i \in FIdx(dd) : OutputsOf(dd, i) \cap ParamsOf(dd, i) = {}
 (* Acyclic: PipelineStatic!Acyclic (networkx refuses to sort a cyclic graph) *)
 (* shared root arguments carry one default value (validate_consistent_defaults) *)
-DeclaredDefaults(dd, p) == {PGet(dd.funcs[i].defaults, p) : i \in {j \in FIdx(dd) : PHas(dd.funcs[j].defaults, p) /\ ~IsBound(dd, j, p)}}
+(* A default is a VALUE like any other: None, 0, "" and the empty tuple are values, not "no default".  Which function  *)
+(* declares which value, and in which order the functions are listed, is immaterial: two declarations agree iff the    *)
+(* values are equal.                                                                                                   *)
+Declares(dd, i, p)      == PHas(dd.funcs[i].defaults, p) /\ ~IsBound(dd, i, p)
+DeclaredDefaults(dd, p) == {PGet(dd.funcs[i].defaults, p) : i \in {j \in FIdx(dd) : Declares(dd, j, p)}}
 ConsistentDefaults(dd) == \A p \in AllParams(dd) \ AllOutputs(dd) : Cardinality(DeclaredDefaults(dd, p)) <= 1
+(* the same clause said pair by pair, and two symmetries of it (laws, checked by TLC for every case):                  *)
+ConsistentDefaultsPairwise(dd) ==
+    \A p \in AllParams(dd) \ AllOutputs(dd) : \A i, j \in FIdx(dd) :
+        (Declares(dd, i, p) /\ Declares(dd, j, p)) => PGet(dd.funcs[i].defaults, p) = PGet(dd.funcs[j].defaults, p)
+ReverseFuncs(dd) == [dd EXCEPT !.funcs = [k \in 1..NF(dd) |-> dd.funcs[NF(dd) + 1 - k]]]
+(* every declared default that equals v1 becomes v2 and vice versa (None <-> 3, 0 <-> "x", ...) *)
+SwapDefaultValues(dd, v1, v2) ==
+    [dd EXCEPT !.funcs = [k \in 1..NF(dd) |-> [dd.funcs[k] EXCEPT !.defaults =
+        [m \in DOMAIN dd.funcs[k].defaults |->
+            LET pr == dd.funcs[k].defaults[m] IN <<pr[1], IF pr[2] = v1 THEN v2 ELSE IF pr[2] = v2 THEN v1 ELSE pr[2]>>]]]]
+AllDeclaredDefaults(dd) == UNION {{dd.funcs[i].defaults[m][2] : m \in DOMAIN dd.funcs[i].defaults} : i \in FIdx(dd)}
+LawDefaultsSymmetric(dd) ==
+    /\ ConsistentDefaults(dd) <=> ConsistentDefaultsPairwise(dd)
+    /\ ConsistentDefaults(ReverseFuncs(dd)) <=> ConsistentDefaults(dd)                    \* listing order
+    /\ \A v1, v2 \in AllDeclaredDefaults(dd) :                                            \* which value is which
+           ConsistentDefaults(SwapDefaultValues(dd, v1, v2)) <=> ConsistentDefaults(dd)
 (* a MapSpec speaks about the function it is attached to: its inputs are parameters (none of them bound), its outputs   *)
 (* are exactly the function's outputs (PipeFunc._validate_mapspec, Pipeline._validate_mapspec)                          *)
 MapSpecMatchesSignature(dd) ==
@@ -77,10 +97,23 @@ SpecsOf(dd, n) == UNION {{fn.ms.ins[k] : k \in {m \in DOMAIN fn.ms.ins : fn.ms.i
                          : fn \in {dd.funcs[i] : i \in {j \in FIdx(dd) : dd.funcs[j].has_ms}}}
 ArrayNames(dd) == UNION {{fn.ms.ins[k].name : k \in DOMAIN fn.ms.ins} \cup {fn.ms.outs[k].name : k \in DOMAIN fn.ms.outs}
                          : fn \in {dd.funcs[i] : i \in {j \in FIdx(dd) : dd.funcs[j].has_ms}}}
-ConsistentAxes(dd) ==
-    \A n \in ArrayNames(dd) : \A s1, s2 \in SpecsOf(dd, n) :
-        /\ Len(s1.axes) = Len(s2.axes)
-        /\ \A k \in DOMAIN s1.axes : (s1.axes[k] # ":" /\ s2.axes[k] # ":") => s1.axes[k] = s2.axes[k]
+SameAxes(s1, s2) ==
+    /\ Len(s1.axes) = Len(s2.axes)
+    /\ \A k \in DOMAIN s1.axes : (s1.axes[k] # ":" /\ s2.axes[k] # ":") => s1.axes[k] = s2.axes[k]
+ConsistentAxes(dd) == \A n \in ArrayNames(dd) : \A s1, s2 \in SpecsOf(dd, n) : SameAxes(s1, s2)
+(* The same clause said by ROLE.  An array has at most one producer - function i, which lists it at SOME position k of  *)
+(* its output specs (a function with a tuple output has one output spec per name, and every one of them counts, not    *)
+(* only the first) - and any number of consumers.  The producer agrees with every consumer, and the consumers agree    *)
+(* with each other (root arrays have consumers only).                                                                  *)
+MSFuncs(dd) == {i \in FIdx(dd) : dd.funcs[i].has_ms}
+ProducerConsumerAgree(dd) ==
+    \A i \in MSFuncs(dd) : \A k \in DOMAIN dd.funcs[i].ms.outs :
+        \A j \in MSFuncs(dd) : \A m \in DOMAIN dd.funcs[j].ms.ins :
+            dd.funcs[j].ms.ins[m].name = dd.funcs[i].ms.outs[k].name => SameAxes(dd.funcs[i].ms.outs[k], dd.funcs[j].ms.ins[m])
+ConsumersAgree(dd) ==
+    \A i, j \in MSFuncs(dd) : \A k \in DOMAIN dd.funcs[i].ms.ins : \A m \in DOMAIN dd.funcs[j].ms.ins :
+        dd.funcs[i].ms.ins[k].name = dd.funcs[j].ms.ins[m].name => SameAxes(dd.funcs[i].ms.ins[k], dd.funcs[j].ms.ins[m])
+LawAxesByRole(dd) == UniqueOutputs(dd) => (ConsistentAxes(dd) <=> (ProducerConsumerAgree(dd) /\ ConsumersAgree(dd)))
 
 ConstructOK(dd) == /\ UniqueOutputs(dd) /\ OutputNotOwnParam(dd) /\ Acyclic(dd) /\ ConsistentDefaults(dd)
                    /\ MapSpecMatchesSignature(dd) /\ ConsistentAxes(dd)
